@@ -40,6 +40,7 @@ struct RunData {
   std::vector<MqttIn> mqttIn;                 // what the broker stub delivered to ebusd
   sim::History hist;
   std::vector<CmdRecord> cmds;
+  std::map<int, std::string> rxAll;           // everything a client connection received (incl. unsolicited lines in listen mode)
   std::vector<Exchange> exchanges;
   std::map<std::string, std::string> files;   // html root relative path -> content
   std::string sentinel;                       // content of the file outside the html root
